@@ -85,6 +85,10 @@ package utils
 //@ modifies reader.spos, reader.sfault
 //@ ensures [P:C02] result1 == nil ==> (result0 == vlqAcc(reader.sdata, old(reader.spos), reader.spos - old(reader.spos)) && vlqEndsAt(reader.sdata, old(reader.spos), reader.spos - old(reader.spos)))
 //@ ensures [P:C09] result1 != nil && reader.sfault == nil ==> (reader.spos == reader.sn && forall i int :: old(reader.spos) <= i && i < reader.sn ==> (reader.sdata[i] & 0x80) != 0)
+//@ ensures [P:C02] result1 == nil && reader.spos - old(reader.spos) <= 5 ==> vlqEnds5(reader.sdata, old(reader.spos), reader.spos - old(reader.spos))
+//@ ensures [P:C02] result1 == nil && reader.spos - old(reader.spos) <= 5 ==> result0 == vlqDec(reader.sdata, old(reader.spos), reader.spos - old(reader.spos))
+//@ ensures [P:C02] forall c int :: (old(reader.sfault) == nil && reader.sfault == nil && vlqEnds5(reader.sdata, old(reader.spos), c) && old(reader.sn) - old(reader.spos) >= c) ==> (result1 == nil && reader.spos == old(reader.spos) + c)
+//@ ensures [H] old(reader.sgreedy) && old(reader.sfault) == nil ==> reader.sfault == nil
 //@ ensures [P:C10] result1 != nil ==> (result1 == ErrUnexpectedEOF)
 //@ ensures [P:C10] old(reader.sfault) != nil ==> result1 != nil
 //@ ensures [H] old(reader.spos) <= reader.spos && reader.spos <= reader.sn
@@ -98,4 +102,35 @@ package utils
 //@ loop 0 invariant !first && num == 0 ==> (reader.sfault != nil || (reader.spos == reader.sn && forall i int :: old(reader.spos) <= i && i < reader.sn ==> (reader.sdata[i] & 0x80) != 0))
 //@ loop 0 invariant reader.sfault == nil ==> old(reader.sfault) == nil
 //@ loop 0 invariant old(reader.sfault) != nil ==> (first || num == 0)
+//@ loop 0 invariant old(reader.sgreedy) && old(reader.sfault) == nil ==> reader.sfault == nil
 //@ loop 0 decreases 2 * (reader.sn - reader.spos) + num
+
+//@ func KeyFromSharpsOrFlats
+//@ ensures [P:C15] sharpsOrFlats >= -7 && sharpsOrFlats <= 7 && mode <= 1 ==> int(result) == keyOf7(int(sharpsOrFlats), mode == 1)
+//@ loop 0 invariant tmp >= -131 && tmp <= 889 && (sharpsOrFlats >= -7 && sharpsOrFlats <= 7 && mode <= 1 ==> ((tmp - (7 * int(sharpsOrFlats) - (mode == 1 ? 3 : 0))) % 12 == 0 && tmp >= 7 * int(sharpsOrFlats) - (mode == 1 ? 3 : 0)))
+//@ loop 0 decreases 0 - tmp
+
+// ReadVarLengthData: a VLQ length followed by that many bytes. It issues a single Read for the payload, so
+// the success clause is stated for greedy (in-memory) readers only; that is how the library uses it.
+// Proved for length prefixes of one or two bytes (payloads below 16384 bytes); the three- and four-byte
+// cases time out in all three solvers and are not claimed.
+//@ macro vldOK(rd, c) = vlqEnds5(rd.sdata, rd.spos, c) && rd.sn - rd.spos >= c + int(vlqDec(rd.sdata, rd.spos, c))
+//@ func ReadVarLengthData
+//@ requires reader != nil && 0 <= reader.spos && reader.spos <= reader.sn
+//@ modifies reader.spos, reader.sfault
+//@ ensures [P:C15] result1 == nil ==> fresh(result0)
+//@ ensures [P:C15] result1 == nil && reader.spos - old(reader.spos) - len(result0) <= 5 ==> vlqEnds5(reader.sdata, old(reader.spos), reader.spos - old(reader.spos) - len(result0))
+//@ ensures [P:C15] result1 == nil ==> forall i int :: 0 <= i && i < len(result0) ==> result0[i] == reader.sdata[reader.spos - len(result0) + i]
+//@ ensures [P:C15] old(reader.sgreedy) && old(reader.sfault) == nil && old(vldOK(reader, 1)) ==> (uint32(len(result0)) == vlqDec(reader.sdata, old(reader.spos), 1) && forall i int :: 0 <= i && i < len(result0) ==> result0[i] == reader.sdata[old(reader.spos) + 1 + i])
+//@ ensures [P:C15] old(reader.sgreedy) && old(reader.sfault) == nil && old(vldOK(reader, 2)) ==> (uint32(len(result0)) == vlqDec(reader.sdata, old(reader.spos), 2) && forall i int :: 0 <= i && i < len(result0) ==> result0[i] == reader.sdata[old(reader.spos) + 2 + i])
+//@ ensures [H] result1 != nil ==> len(result0) == 0
+//@ ensures [H] old(reader.spos) <= reader.spos && reader.spos <= reader.sn
+
+//@ func ReadText
+//@ requires rd != nil && 0 <= rd.spos && rd.spos <= rd.sn
+//@ modifies rd.spos, rd.sfault
+//@ ensures [P:C15] result1 == nil && rd.spos - old(rd.spos) - len(result0) <= 5 ==> vlqEnds5(rd.sdata, old(rd.spos), rd.spos - old(rd.spos) - len(result0))
+//@ ensures [P:C15] result1 == nil ==> forall i int :: 0 <= i && i < len(result0) ==> result0[i] == rd.sdata[rd.spos - len(result0) + i]
+//@ ensures [P:C15] old(rd.sgreedy) && old(rd.sfault) == nil && old(vldOK(rd, 1)) ==> (uint32(len(result0)) == vlqDec(rd.sdata, old(rd.spos), 1) && forall i int :: 0 <= i && i < len(result0) ==> result0[i] == rd.sdata[old(rd.spos) + 1 + i])
+//@ ensures [P:C15] old(rd.sgreedy) && old(rd.sfault) == nil && old(vldOK(rd, 2)) ==> (uint32(len(result0)) == vlqDec(rd.sdata, old(rd.spos), 2) && forall i int :: 0 <= i && i < len(result0) ==> result0[i] == rd.sdata[old(rd.spos) + 2 + i])
+//@ ensures [H] result1 != nil ==> len(result0) == 0
